@@ -363,6 +363,16 @@ def oracle(gd: Optional[mdgen.GenDoc], text: str, impl: Dict[str, Any]) -> Tuple
                 f"(compiling the block texts directly: {expected or 'no error'})"), notes
     cm, htmls = impl["cm"], impl["htmls"]
     SCALES = impl["scales"]
+    # (a0) placeholders are 32 random upper-case letters between '%': what makes a clash with user text (which could
+    #      then be substituted) improbable (26^-32) and unpredictable; a counter or a short marker is guessable
+    for p in impl["placeholders"]:
+        if not re.fullmatch(r"%[A-Z]{32}%", p):
+            return f"placeholder {p!r} is not 32 random upper-case letters between '%': user text can collide with it", notes
+    runs = [run_impl(text, seed=None, scales=SCALES[:1]) for _ in range(2)]
+    if all("placeholders" in r_ for r_ in runs) and impl["placeholders"]:
+        a_, b_ = runs[0]["placeholders"], runs[1]["placeholders"]
+        if a_ and b_ and (set(a_) & set(b_) or set(a_) & set(impl["placeholders"])):
+            return "the same placeholder was drawn in two independent compilations: placeholders are predictable", notes
     # (a) no placeholder residue
     for k, h in zip(SCALES, htmls):
         m = PLACEHOLDER_RE.search(h)
